@@ -17,7 +17,9 @@ None == "none"
 \*       out  [got, success, need, newid (identity issued, or "none"), nonce (index of the challenge
 \*             carried by the response, 0 = none)],
 \*       post [conns: c -> [authd, cid], lookup: X -> connection name or "none"]
-\*  Env: k ("Ban" | "Blacklist" | "Expire"), c / id
+\*  Env: k ("Ban" | "Blacklist": address of c barred from now on; "Expire" | "Bind": client id's stored
+\*       expiry date rewritten, isexp = it lies in the past now (for bound and unbound clients alike);
+\*       other kinds, e.g. the protector's clean-up pass, change nothing the statement talks about), c / id
 \* Judge state: known / expired clients, barred addresses (= connections), challenges issued
 \* and accepted per connection, proved = pairs <<c, X>> "X was issued on c or c answered its
 \* latest challenge with X's key", pre = previous post-state.
@@ -80,7 +82,8 @@ TrMsg ==
 TrEnv ==
   /\ Is("Env")
   /\ barred' = IF Ev.k \in {"Ban", "Blacklist"} THEN barred \cup {Ev.c} ELSE barred
-  /\ expired' = IF Ev.k = "Expire" THEN expired \cup {Ev.id} ELSE expired
+  /\ expired' = IF Ev.k \in {"Expire", "Bind"}   \* isexp: the stored expiry date of the client lies in the past now
+                THEN (IF Ev.isexp THEN expired \cup {Ev.id} ELSE expired \ {Ev.id}) ELSE expired
   /\ l' = l + 1 /\ UNCHANGED <<viol, known, issuedN, usedN, proved, pre, hasPre>>
 
 TrEndAuth == /\ Is("End") /\ EmitVerdict
